@@ -8,6 +8,16 @@ CHECKS = {
  'C13': ('explicit-state BFS over Add/Combine histories on the real StreamStats (state = reflection-read field bits + model multiset), exact big.Rat oracle in every state',
          'All histories of Add/Combine up to the stated depth on 2-6 accumulators, every split of every short stream with every merge order, and every split point of structured long streams with offset 1e9 are executed on the real code and compared with exact batch statistics.',
          'value alphabet {-2,0,3,1e9+1}; float tolerances are explicit forward-error bounds recorded in the evidence', '4/C13'),
+ 'C01': ('bounded-exhaustive enumeration of every (tie vector, allocation) class on the real MannWhitneyUTest vs an exact big.Int permutation-distribution model (model validated against literal subset enumeration)',
+         'Every pair of samples up to order/relabelling with n1+n2<=10 (thorough 13), 3 arrangements x 3 alternatives, plus complete structured families to 50+50 untied / 25+25 tied, is executed and compared with pair-count U and exact tails. The two-sided shortcut defect is a listed known finding matched by signature.',
+         'default exact-method limits; tolerance 1e-9; values are rank indices (the test is rank based; invariance is decided by C03)', '4/C01'),
+ 'C02': ('bounded-exhaustive enumeration of every (N1,N2,T) on the real UDist vs exact big.Int counts; reference model replay-validated against definitional subset enumeration',
+         'Every (N1,N2,T) with N1+N2<=10 (thorough 14) and complete K=2/K=3/uniform/untied families up to 50+50 are evaluated on the whole half-integer grid and off-grid points against exact counts: PMF, CDF, mass, monotonicity, mirror law, Bounds, Step.',
+         'PMF constrained only at attainable points; tolerance 1e-9, monotone slack 1e-11', '4/C02'),
+ 'C03': ('bounded-exhaustive enumeration of sample classes x 25 configurations of the two limit variables on the real MannWhitneyUTest; all permutations; monotone maps; swap law; error cases; normal-branch formula oracle',
+         'Every class with n1+n2<=8 (thorough 10) under all 25 limit configurations (same data through exact and normal method), every permutation for n1+n2<=6 (8), six increasing maps, swap law, argument snapshots including spare capacity, every error combination, and a complete size family to 600x600.',
+         'normal-branch oracle: exact rational variance + math.Erfc (the normal CDF itself is C05\'s subject); range slack 1e-12', '4/C03'),
+# --- end of table ---
 }
 NOT_BUILT = 'check not built yet (work in progress; no claim made)'
 checks, na = [], []
